@@ -39,6 +39,7 @@ structure Line where
   hdrInModel : Bool       -- the header declarations are of the kind the model reads
   hasFile : Bool          -- the source is a file (not inline `uris:`): its Close calls are observed
   closeFails : Bool       -- `cf=1` on a file source: closing the ammo file fails
+  nUris : Nat             -- len(conf.Uris): 0 for a file source; otherwise the lines of the source (what matters: > 0)
 
 /-- a tag / chosencases token of the input line: `_` = the empty tag, `~` = a space -/
 def untok (s : String) : String :=
@@ -89,9 +90,13 @@ def parseLine (kv : List (String × String)) : Option Line := do
   let fh ← parseFH (getS kv "fh")
   let ch ← parseCH (getS kv "ch")
   let hasFile := getS kv "src" != "uris"
+  -- the `uris:` list: one element per entry and per header line, plus the blank line the layouts 1 and 3 start with
+  let junk := (getN? kv "junk").getD 0
+  let nUris := if getS kv "src" == "uris" || getS kv "src" == "both"
+    then tags.length + fh.length + (if junk == 1 || junk == 3 then 1 else 0) else 0
   pure { kind, tags, cases, b := ⟨limit, passes⟩, cap, cell := { tags, cases, limit, passes, cap },
          src := mkSource tags fh ch, hdrInModel := hdrModelled kind tags.length fh ch,
-         hasFile, closeFails := hasFile && getS kv "cf" == "1" }
+         hasFile, closeFails := hasFile && getS kv "cf" == "1", nUris }
 
 /-- what the harness would observe on one side of the model (`cap` = the acquisition count at which it cancels;
 `hasFile` = the source is a file whose Close calls are counted, `closeFails` = closing it fails): the path's outcome
@@ -175,7 +180,13 @@ def handle : Handler := fun input impl =>
       if m == impl then (m, "ok") else ("-", "skip:precancelled-context-differs-from-model")
     else
     if l.cap == 0 then ("-", "skip:no-cap") else
-    if l.tags.isEmpty && getS (parseKV input) "src" == "uris" then ("-", "skip:empty-uris-list-is-no-source") else
+    if !sourceAccepted l.kind l.nUris l.hasFile then
+      -- NewProvider's source switch rejects this configuration, whatever `preload` says
+      let m := s!"{showSide "s" constructFailed "norun"} {showSide "p" constructFailed "norun"} tagsok=1 reqok=1 s.hd=- p.hd=-"
+      match parseSide ikv "s", parseSide ikv "p" with
+      | some s, some p => (m, Spec.C14.judgeRejected { s, p, tagsOk := true })
+      | _, _ => (m, s!"fail:crash:{impl.take 160}")
+    else
     if !Spec.C14.noMatch l.cell && Spec.C14.inconclusive l.cell then ("-", "skip:cap-equals-count") else
     if !l.hdrInModel then ("-", "skip:header-declarations-outside-the-model") else
     if (getS ikv "s.run").startsWith "infra" || (getS ikv "p.run").startsWith "infra" then
